@@ -50,7 +50,8 @@ CLOCK = ["8:00", "20:15", "8h", "8uhr", "8 uhr", "8am", "8pm", "8 am", "8 pm", "
 DATES = ["5.10.", "31.04.", "30.2.", "29.02.2019", "29.02.2020", "12/12/2020", "12-12-2020",
          "1.1.99", "12.02.2020", "5/10", "31.12.", "31.12.2020", "1.1.", "31.04.2020", "30.02.2021",
          "31/6", "31.6.2020", "31.11.", "10/31", "02/30", "06-31", "2-29", "feb-30", "29.feb",
-         "31.apr.2020", "1.jan.2020", "31.9.", "24.12.19", "5.5", "5.13", "12.02.2020 - 31.",
+         "31.apr.2020", "1.jan.2020", "31.9.", "24.12.19", "5.5", "5.13", "12.02.2020 - 31.", "29.02.1900", "29 feb 1900", "29.02.2000",
+         "28.02.1900 - 29.02.1900", "29.02.00", "1.3.1900", "29.2.2100",
          "31. - 12.02.2020", "30.2. - 5.3.2020", "15.-31.6.2020", "29.2.", "31.6 - 2.7.2021"]
 QUARTER = ["quarter to", "quarter past", "a quarter to", "quarter after", "viertel vor", "viertel nach",
            "half", "halb", "half past", "halb nach", "half to", "halfe", "halb vor", "quarter of"]
@@ -152,7 +153,7 @@ def family_strategy():
     pre = st.sampled_from(FAM_RANGE_PRE)
     dom = st.integers(1, 31)
     mon = st.integers(1, 12)
-    year = st.sampled_from([2019, 2020, 2021, 2024, 19, 20, 99])
+    year = st.sampled_from([2019, 2020, 2021, 2024, 19, 20, 99, 1900, 2000, 1996])
     date = st.one_of(
         st.builds(lambda d, m, y: "{}.{}.{}".format(d, m, y), dom, mon, year),
         st.builds(lambda d, m: "{}.{}.".format(d, m), dom, mon),
